@@ -33,13 +33,28 @@ Definition ma_rows (y : miss) (c : cand) (a : annot) : list nat :=
   | CNone => match a with ANone => rows_with_missing y 0 | _ => seq 0 (length y) end
   end.
 
+(* np.argsort(candidates, kind="stable"): positions of the given candidate indices in sorted order.
+   _validate_data sorts the index candidates (check_indices) and re-orders the rows of a boolean
+   annotators matrix along, so that row r of A_cand belongs to the r-th smallest candidate. *)
+Fixpoint ins_key (p : nat * nat) (l : list (nat * nat)) : list (nat * nat) :=
+  match l with
+  | [] => [p]
+  | q :: t => if (fst p <=? fst q)%nat then p :: l else q :: ins_key p t
+  end.
+Definition stable_argsort (l : list nat) : list nat :=
+  map snd (fold_right ins_key [] (combine l (seq 0 (length l)))).
+Definition perm_rows (l : list nat) (m : list (list bool)) : list (list bool) :=
+  map (fun i => nth i m []) (stable_argsort l).
+Definition mat_rows (c : cand) (m : list (list bool)) : list (list bool) :=
+  match c with CIdx l => perm_rows l m | _ => m end.
+
 Definition idx_row (na : nat) (l : list nat) : list bool := map (fun j => memb j l) (seq 0 na).
 
 (* A_cand *)
 Definition ma_avail (y : miss) (c : cand) (a : annot) : list (list bool) :=
   let rows := ma_rows y c a in
   match a with
-  | AMat m => m
+  | AMat m => mat_rows c m
   | AIdx l => map (fun _ => idx_row (n_annot y) l) rows
   | ANone =>
       match c with
@@ -54,7 +69,7 @@ Definition count_true (m : list (list bool)) : nat :=
 (* n_candidate_pairs as computed by _validate_data *)
 Definition n_pairs (y : miss) (c : cand) (a : annot) : nat :=
   match a with
-  | AMat m => count_true m
+  | AMat m => count_true (mat_rows c m)
   | AIdx l =>
       (match c with CNone => length y | CIdx ci => length (uniq_sort ci) | CFeat m => m end * length (uniq_sort l))%nat
   | ANone =>
